@@ -250,6 +250,7 @@ def run(c):
             finally:
                 srv.cleanup()
         aged_vs_fresh(c, t, rng)
+        cold_start(c, t, rng)
         hammer(c, t, rng)
         if all_rounds_overlapped and max_overlap_all >= 2:
             c.seen(">= 2 requests overlapping in every round")
@@ -319,6 +320,41 @@ def aged_vs_fresh(c, t, rng):
         finally:
             aged.cleanup()
             fresh.cleanup()
+
+
+def cold_start(c, t, rng):
+    """the very first requests of a freshly started server arrive on all its workers at the same instant; each answer must be
+    the one a warm server gives to that request alone"""
+    c.need("cold-start simultaneous first requests")
+    warm = server.Server(t.root, threads=2)
+    try:
+        if not warm.started:
+            c.inconc("server did not start")
+            return
+        for k in range(8 if c.quick else 60):
+            w = (8, 4, 16)[k % 3]
+            mix = build_mix(t, rng, w, "cold%d" % k)
+            ref = [warm.request(raw, timeout=20)[0] for _, _, raw in mix]
+            cold = server.Server(t.root, threads=w)
+            try:
+                if not cold.started:
+                    c.inconc("server did not start")
+                    continue
+                outs = server.simultaneous(cold, [raw for _, _, raw in mix])
+                for (kind, tok, raw), a, b in zip(mix, ref, outs):
+                    c.ev()
+                    c.cls("cold-start", kind, w)
+                    c.seen("cold-start simultaneous first requests")
+                    na, nb = normalise(a, raw), normalise(b, raw)
+                    if na != nb:
+                        j = next((x for x in range(min(len(na), len(nb))) if na[x] != nb[x]), min(len(na), len(nb)))
+                        c.violation("C08:cold-start:%s:%s" % (kind, "empty" if not nb else ("head" if j < (na.find(b"\r\n\r\n") if b"\r\n\r\n" in na else 0) else "body")),
+                                    "among the %d simultaneous first requests of a fresh server a %s request is answered differently from a warm server (first difference at byte %d, %d vs %d bytes)" % (w, kind, j, len(nb), len(na)),
+                                    {"workers": w, "kind": kind, "request_b64": base64.b64encode(raw).decode(), "warm_head": a[:300].decode("latin-1"), "cold_head": b[:300].decode("latin-1")})
+            finally:
+                cold.cleanup()
+    finally:
+        warm.cleanup()
 
 
 def _hammer_client(args):
